@@ -409,6 +409,21 @@ def expected_events(shape, S, out):
     return calls, writes, sorted(reads)
 
 
+def missing_needed(shape, P, S, calls, reads):
+    """Reads that must fail: a missing value this run does not (re)build first.  A stored value is rebuilt when out of
+    date; a dependent source only when its generator (first predecessor) is itself executed in this run."""
+    out = []
+    for n in reads:
+        if P[n]:
+            continue
+        if shape.roles[n] == "store" and S[n]:
+            continue
+        if shape.roles[n] == "src" and shape.preds[n] and S[n] and shape.preds[n][0][0] in calls:
+            continue
+        out.append(n)
+    return out
+
+
 def run(b, shape, world, **kw):
     kw.setdefault("progress", None)
     kw.setdefault("max_workers", 1)
